@@ -750,7 +750,11 @@ func (p *Parser) parseForEach() ast.Expression {
 	expression := &ast.ForeachStatement{Token: p.curToken}
 
 	// get the id
-	p.nextToken()
+	if !p.expectPeek(token.IDENT) {
+		msg := fmt.Sprintf("foreach expects an identifier, around %s", p.curToken.Position())
+		p.errors = append(p.errors, msg)
+		return nil
+	}
 	expression.Ident = p.curToken.Literal
 
 	// If we find a "," we then get a second identifier too.
@@ -822,8 +826,12 @@ func (p *Parser) parseFunctionDefinition() ast.Expression {
 	// We're inside a function
 	p.function = true
 
-	// skip the `function` keyword
-	p.nextToken()
+	// skip the `function` keyword, we expect the name of the function.
+	if !p.expectPeek(token.IDENT) {
+		msg := fmt.Sprintf("expected the name of a function but got %s around %s", p.peekToken.Literal, p.curToken.Position())
+		p.errors = append(p.errors, msg)
+		return nil
+	}
 
 	// Define a function with the identifier
 	lit := &ast.FunctionDefinition{Token: p.curToken}
@@ -837,6 +845,9 @@ func (p *Parser) parseFunctionDefinition() ast.Expression {
 
 	// Swallow all arguments until the closing ")"
 	lit.Parameters = p.parseFunctionParameters()
+	if lit.Parameters == nil {
+		return nil
+	}
 
 	// Now we want "{"
 	if !p.expectPeek(token.LBRACE) {
@@ -879,13 +890,27 @@ func (p *Parser) parseFunctionParameters() []*ast.Identifier {
 		}
 
 		// Get the identifier.
+		if !p.curTokenIs(token.IDENT) {
+			msg := fmt.Sprintf("function parameters must be identifiers, got %s around %s", p.curToken.Literal, p.curToken.Position())
+			p.errors = append(p.errors, msg)
+			return nil
+		}
 		ident := &ast.Identifier{Token: p.curToken, Value: p.curToken.Literal}
 		identifiers = append(identifiers, ident)
 		p.nextToken()
 
-		// Skip any comma.
+		// Parameters are separated by commas, and ended by ")".
 		if p.curTokenIs(token.COMMA) {
 			p.nextToken()
+			if !p.curTokenIs(token.IDENT) {
+				msg := fmt.Sprintf("function parameters must be identifiers, got %s around %s", p.curToken.Literal, p.curToken.Position())
+				p.errors = append(p.errors, msg)
+				return nil
+			}
+		} else if !p.curTokenIs(token.RPAREN) {
+			msg := fmt.Sprintf("expected , or ) in function parameters, got %s around %s", p.curToken.Literal, p.curToken.Position())
+			p.errors = append(p.errors, msg)
+			return nil
 		}
 	}
 
